@@ -28,7 +28,8 @@ from typing import TYPE_CHECKING
 from igraph import Vertex
 
 from explorerscript.ssb_converting.decompiler.write_handlers.abstract import AbstractWriteHandler
-from explorerscript.ssb_converting.ssb_special_ops import SsbLabelJump
+from explorerscript.ssb_converting.decompiler.graph_building.graph_utils import find_lowest_and_highest_out_edge
+from explorerscript.ssb_converting.ssb_special_ops import SsbLabelJump, SsbLabel, SsbForeignLabel
 
 if TYPE_CHECKING:
     from explorerscript.ssb_converting.ssb_decompiler import ExplorerScriptSsbDecompiler
@@ -49,7 +50,16 @@ class CallWriteHandler(AbstractWriteHandler):
         op: SsbLabelJump = self.start_vertex["op"]
         self.decompiler.source_map_add_opcode(op.offset)
         assert op.label is not None
-        self.decompiler.write_stmnt(f"call @label_{op.label.id};")
         exits = self.start_vertex.out_edges()
         assert 3 > len(exits) > 0, f"A call must have exactly one or two points to jump to, has {len(exits)}."
-        return exits[0].target_vertex
+        # The edge with the lower flow level leads to the next op, the other one to the called label. The order of
+        # the edges in the graph says nothing, and the called label may have been merged into another label.
+        next_edge, call_edge = find_lowest_and_highest_out_edge(self.start_vertex.graph, self.start_vertex, "flow_level")
+        label_id = op.label.id
+        called_op = call_edge.target_vertex["op"]
+        if isinstance(called_op, SsbLabel):
+            label_id = called_op.id
+        elif isinstance(called_op, SsbForeignLabel):
+            label_id = called_op.label.id
+        self.decompiler.write_stmnt(f"call @label_{label_id};")
+        return next_edge.target_vertex
